@@ -360,9 +360,9 @@ def _fbd_inv(c, v, v0, k):
     else:
         row = lambda q: _all_rows(c, M, lambda m: _at(BS, m, q) == c.If(S['overl'](q), S['val'](q, m), 0))
     done = c.Forall(0, k, row)
-    if c.mode == 'sym' and not getattr(c, 'assuming', False) and v.has('save_start') and len(getattr(c, 'ss_results', [])) >= 2:
+    if c.mode == 'sym' and not getattr(c, 'assuming', False) and v.has('save_start') and len(v.ghost('searchsorted')) >= 2:
         last = z3.simplify(k - 1)
-        s1, s2 = c.ss_results[-2], c.ss_results[-1]           # what the two searchsorted calls of this iteration returned
+        s1, s2 = v.ghost('searchsorted')[-2:]                 # what the two searchsorted calls of this iteration returned
         ST, SP = S['ST'](last), S['SP'](last)
         lo, hi = S['lo'](last), S['hi'](last)
         Nn = to_int(N)
